@@ -95,6 +95,11 @@ pub trait Family: Sync + Send {
     fn exhaustive(&self, _tier: Tier) -> bool {
         false
     }
+    /// false for engines whose interleaving is decided by a seeded runtime rather than by a recorded
+    /// decision list (system-level simulator, stream-fault simulator): replays then carry the seed
+    fn records_decisions(&self) -> bool {
+        true
+    }
 }
 
 pub struct Check {
@@ -407,6 +412,8 @@ fn plan_size(v: &Value) -> usize {
 pub struct Minimised {
     pub plan: Value,
     pub sched_seed: u64,
+    /// the schedule under which `outcome` was produced
+    pub sched: Sched,
     pub decisions: Vec<u32>,
     pub outcome: Outcome,
     pub candidates_tried: u64,
@@ -453,6 +460,9 @@ pub fn minimise(property: &str, fam: &dyn Family, plan: &Value, seed: u64, class
     }
     // record and shorten the schedule
     let rec = exec_caught(property, fam, &cur, &Sched::Seeded(cur_seed), true);
+    if !fam.records_decisions() || rec.decisions.is_empty() {
+        return Minimised { plan: cur, sched_seed: cur_seed, sched: Sched::Seeded(cur_seed), decisions: vec![], outcome: rec, candidates_tried: tried };
+    }
     let full = rec.decisions.clone();
     let repro = |d: &[u32]| -> Option<Outcome> {
         let o = exec_caught(property, fam, &cur, &Sched::Recorded(d.to_vec()), false);
@@ -474,16 +484,12 @@ pub fn minimise(property: &str, fam: &dyn Family, plan: &Value, seed: u64, class
             }
         }
     }
-    let outcome = match best_out {
-        Some(o) => o,
-        None => {
-            // recorded replay did not reproduce (should not happen: determinism self-check guards it);
-            // fall back to the seeded execution so that the replay file is still exact
-            best = vec![];
-            rec
-        }
-    };
-    Minimised { plan: cur, sched_seed: cur_seed, decisions: best, outcome, candidates_tried: tried }
+    match best_out {
+        Some(o) => Minimised { plan: cur, sched_seed: cur_seed, sched: Sched::Recorded(best.clone()), decisions: best, outcome: o, candidates_tried: tried },
+        // recorded replay did not reproduce (should not happen: the determinism self-check guards it);
+        // fall back to the seeded execution so that the replay file is still exact
+        None => Minimised { plan: cur, sched_seed: cur_seed, sched: Sched::Seeded(cur_seed), decisions: vec![], outcome: rec, candidates_tried: tried },
+    }
 }
 
 // ------------------------------------------------------------------ replay files
@@ -493,7 +499,10 @@ pub fn write_replay(dir: &Path, check: &Check, fam: &dyn Family, o: &Opts, run_i
     let slug: String = class.chars().map(|c| if c.is_ascii_alphanumeric() { c } else { '_' }).collect();
     let path = dir.join(format!("{}-{}-{}-{}.json", check.property, fam.name(), slug, run_index));
     let msg = m.outcome.violations.iter().find(|v| v.class == class).map(|v| v.msg.clone()).unwrap_or_default();
-    let sched = if m.decisions.is_empty() && !matches!(m.outcome.decisions.len(), 0) { json!({"seeded": m.sched_seed}) } else { json!({"recorded": m.decisions, "fallback_seeded": m.sched_seed}) };
+    let sched = match &m.sched {
+        Sched::Seeded(s) => json!({"seeded": s}),
+        Sched::Recorded(d) => json!({"recorded": d, "found_with_seed": m.sched_seed}),
+    };
     let v = json!({
         "property": check.property, "engine": check.engine, "family": fam.name(), "class": class,
         "verif_seed": o.seed, "run_index": run_index, "tier": o.tier.name(),
